@@ -10,13 +10,12 @@ where
 {
     fn clone(&self) -> Self {
         let mut m = Self::new();
-        m.len = self.len;
-        m.pairs
-            .iter_mut()
-            .zip(self.pairs[..self.len].iter())
-            .for_each(|(dst, src)| unsafe {
-                dst.write(src.assume_init_ref().clone());
-            });
+        for (dst, src) in m.pairs.iter_mut().zip(self.pairs[..self.len].iter()) {
+            dst.write(unsafe { src.assume_init_ref() }.clone());
+            // Count a slot only once it is written: if a `clone()` panics,
+            // the partial copy drops exactly what it holds.
+            m.len += 1;
+        }
         m
     }
 }
